@@ -69,7 +69,8 @@ def make (spec0):
     # helper wire that guarantees a pulse for the (irrelevant) source
     geo.append (gen.wire (2, [5e4, 0, 0], [5e4 + 1, 0, 0], 1e-3, tag = nobj + 1))
     tr = []
-    keys = list (rng.permutation (8) [: int (rng.integers (0, 5))])
+    # sort keys are numbers: mix of magnitudes and signs so that numeric and textual order differ
+    keys = list (rng.permutation ([-20, -3, -1.5, 0, 1, 2, 2.5, 9, 10, 11, 20, 100]) [: int (rng.integers (0, 5))])
     for key in keys:
         tag = None if rng.random () < 0.5 else int (rng.integers (1, nobj + 1))
         if rng.random () < 0.5:
